@@ -70,6 +70,9 @@ def gen_case(rnd, spec):
         params = {"rate": rnd.choice([1, 2, 0.5, 4]), "low_utilisation": 0.5, "high_allocation": rnd.choice([0.5, 0.75])}
     elif kind == "factory":
         params = {"initial": rnd.randint(0, 3), "sizes": rnd.choice([[1], [2], [1, 3], [1, 2, 5]])}
+    elif kind == "buffer":
+        # the pending value may differ from the target's demand when the service starts
+        params = {"prestart": rnd.choice([None, None, ["write", rnd.randint(0, 50)], ["outside", rnd.randint(0, 50)]])}
     elif kind == "switch":
         params = {"slave_interval": rnd.choice([1, 7, 0.5, 10]), "start_demand": rnd.choice([10, 20, 40])}
     return {"kind": kind, "interval": interval, "start": start, "periods": periods, "actions": actions, "params": params,
@@ -134,6 +137,11 @@ def execute(case, result):
         pool.poke(demand=case["params"].get("start_demand", 10))
     elif kind == "buffer":
         svc = Buffer(pool, window=interval)
+        pre = case["params"].get("prestart")
+        if pre and pre[0] == "write":
+            svc.demand = pre[1]
+        elif pre:
+            pool.poke(demand=pre[1])
     else:
         sizes = case["params"]["sizes"]
 
@@ -267,6 +275,10 @@ def execute(case, result):
                 break
         result.count("buffer_target_writes", len(writes))
         initial = 10
+        pre = case["params"].get("prestart")
+        if pre and pre[0] == "write":
+            initial = pre[1]  # written to the Buffer before its service started: due at the very first boundary
+            result.count("buffer_runs_with_pending_value_at_start")
         for b, seen in snapshots:
             before = [v for t, v, _ in buffer_writes if t < b]
             at = [v for t, v, _ in buffer_writes if t == b]
@@ -338,7 +350,8 @@ def run_shard(spec):
 def finish(total, tier):
     need = ["%s_runs" % k for k in KINDS] + ["steps_checked", "linear_pairs_checked", "buffer_target_writes",
                                               "buffer_boundaries_checked", "factory_adjustments_checked", "factory_children_spawned",
-                                              "factory_needed_adjustments_observed", "switch_slave_steps_checked", "stepwise_step_effects_checked"]
+                                              "factory_needed_adjustments_observed", "switch_slave_steps_checked", "stepwise_step_effects_checked",
+                                              "buffer_runs_with_pending_value_at_start"]
     for name in need:
         if not total.counters.get(name) and not total.violations:
             total.inconc("monitor never observed: " + name)
